@@ -289,9 +289,37 @@ class Model:
         self.exe = C.ensure_model()
 
     def run(self, lines, timeout=900):
-        rc, out, err = C.run(["bash", "-c", "ulimit -s unlimited 2>/dev/null; exec " + self.exe], input="\n".join(lines) + "\n", timeout=timeout)
-        if rc != 0 and rc != 124:
-            raise RuntimeError("model driver failed rc=%s: %s" % (rc, err[-2000:]))
+        # the driver is single-threaded: lines are grouped by the grammar they refer to and the groups are spread
+        # over parallel driver processes (a line's first argument is <grammar id>/<option set>...)
+        groups = {}
+        order = []
+        for ln in lines:
+            parts = ln.split(" ", 2)
+            key = parts[1].split("/")[0] if len(parts) > 1 and parts[0] in ("grammar", "run", "spec", "gen", "emit", "opt", "link") else ""
+            if key not in groups:
+                groups[key] = []
+                order.append(key)
+            groups[key].append(ln)
+        nproc = max(1, min(16, len(order)))
+        chunks = [[] for _ in range(nproc)]
+        sizes = [0] * nproc
+        for key in sorted(order, key=lambda k: -sum(len(x) for x in groups[k])):
+            i = sizes.index(min(sizes))
+            chunks[i].extend(groups[key])
+            sizes[i] += sum(len(x) for x in groups[key])
+        import concurrent.futures
+
+        def one(chunk):
+            if not chunk:
+                return 0, "", ""
+            return C.run(["bash", "-c", "ulimit -s unlimited 2>/dev/null; exec " + self.exe], input="\n".join(chunk) + "\n", timeout=timeout)
+        with concurrent.futures.ThreadPoolExecutor(max_workers=nproc) as ex:
+            results = list(ex.map(one, chunks))
+        out = ""
+        for rc, o, err in results:
+            if rc != 0 and rc != 124:
+                raise RuntimeError("model driver failed rc=%s: %s" % (rc, err[-2000:]))
+            out += o + "\n"
         res = {}
         errs = []
         for line in out.split("\n"):
